@@ -265,7 +265,7 @@ class Magnet():
             torrent.webseeds = self.ws
         if self.xl:
             torrent._metainfo['info']['length'] = self.xl
-        if hasattr(self, '_info'):
+        if self._has_info:
             torrent.metainfo['info'] = self._info
         else:
             # Convert base 32 or upper-case base 16 to lower-case base 16 (SHA1)
@@ -293,7 +293,7 @@ class Magnet():
             ``False`` otherwise
         """
         def success():
-            return hasattr(self, '_info')
+            return self._has_info
 
         torrent_urls = []
         if self.xs: torrent_urls.append(self.xs)  # noqa: E701
@@ -337,6 +337,14 @@ class Magnet():
                 raise error.MetainfoError(f'Mismatching info hashes: {self.infohash} != {torrent.infohash}')
             elif torrent.metainfo['info']:
                 self._info = torrent.metainfo['info']
+                self._info_infohash = self._infohash_hex
+
+    @property
+    def _has_info(self):
+        # The "info" section from get_info() is only good for the info hash
+        # this magnet had when it was downloaded
+        return (hasattr(self, '_info') and
+                getattr(self, '_info_infohash', None) == self._infohash_hex)
 
     _KNOWN_PARAMETERS = ('xt', 'dn', 'xl', 'tr', 'xs', 'as', 'ws', 'kt')
 
